@@ -95,6 +95,7 @@ func scenExec(out *scenOut, r *rng, thorough bool) {
 	execNilInput(out)
 	execReleaseFails(out, "quit-msg")
 	execAfterEOF(out)
+	execProcessReal(out)
 	for i := 0; i < n; i++ {
 		bits := r.intn(32)
 		nexec := r.rangeIn(1, 3)
@@ -860,5 +861,66 @@ func signalsOptionAcrossExec(out *scenOut, sig syscall.Signal) {
 	if !run.wait(3 * time.Second) {
 		run.p.Kill()
 		run.wait(3 * time.Second)
+	}
+}
+
+// execProcessReal: ExecProcess with real commands (os/exec), the program's output not a file (so
+// os/exec copies the command's output through a pipe of its own): the callback's message carries
+// the command's own outcome - nil for a command that succeeds, also when a background child keeps
+// the output open for a while after it; an *exec.ExitError with the exit code for one that fails.
+func execProcessReal(out *scenOut) {
+	type tc struct {
+		name string
+		argv []string
+		want string // "nil" or "exit:<code>"
+	}
+	for _, c := range []tc{
+		{"true", []string{"true"}, "nil"},
+		{"false", []string{"false"}, "exit:1"},
+		{"exit 3", []string{"sh", "-c", "exit 3"}, "exit:3"},
+		{"background child holds the output for 0.6 s", []string{"sh", "-c", "sleep 0.6 &"}, "nil"},
+	} {
+		if _, err := exec.LookPath(c.argv[0]); err != nil {
+			continue
+		}
+		ctl := newRecCtl()
+		var got atomic.Value
+		ctl.onUpdate = func(m tea.Msg, v int) tea.Cmd {
+			if u, ok := m.(userMsg); ok && u.Sender == 9 {
+				return tea.ExecProcess(exec.Command(c.argv[0], c.argv[1:]...), func(err error) tea.Msg {
+					switch e := err.(type) {
+					case nil:
+						got.Store("nil")
+					case *exec.ExitError:
+						got.Store(fmt.Sprintf("exit:%d", e.ExitCode()))
+					default:
+						var ee *exec.ExitError
+						if errors.As(err, &ee) {
+							got.Store(fmt.Sprintf("wrapped exit:%d (%T)", ee.ExitCode(), err))
+						} else {
+							got.Store(fmt.Sprintf("%T: %v", err, err))
+						}
+					}
+					return execDoneMsg{Tag: "p", Err: err}
+				})
+			}
+			return nil
+		}
+		run := startProgram(ctl, nil, tea.WithInput(nil), tea.WithoutSignalHandler())
+		desc := "ExecProcess(" + strings.Join(c.argv, " ") + "), program output not a file, no input: " + c.name
+		waitFor(2*time.Second, func() bool { return ctl.log.has("view-exit", "") })
+		run.p.Send(userMsg{9, 0})
+		ok := waitFor(5*time.Second, func() bool { return ctl.log.has("update-exit", "execdone:p") })
+		out.record("exec-process/"+c.name, desc)
+		if !ok {
+			out.fail(finding{Property: "C17", Class: "new", What: "the callback message of an ExecProcess was not delivered", Input: desc})
+		} else if g, _ := got.Load().(string); g != c.want {
+			out.fail(finding{Property: "C17", Class: "new", What: "the callback's message does not carry the command's own outcome (its error, or nil)", Input: desc, Expected: c.want, Observed: g})
+		}
+		run.p.Quit()
+		if !run.wait(3 * time.Second) {
+			run.p.Kill()
+			run.wait(3 * time.Second)
+		}
 	}
 }
